@@ -145,6 +145,21 @@ fn input_tags(s: &str, extra: &[String]) -> Vec<String> {
     if s.chars().filter(|c| c.is_ascii_digit()).count() >= 19 {
         t.push("huge-number".into());
     }
+    // a brace range with a bound of ten or more digits
+    if let (Some(b), Some(_)) = (s.find('{'), s.find("..")) {
+        let mut run = 0;
+        for c in s[b..].chars() {
+            if c.is_ascii_digit() {
+                run += 1;
+                if run >= 10 {
+                    t.push("huge-range".into());
+                    break;
+                }
+            } else {
+                run = 0;
+            }
+        }
+    }
     t
 }
 
